@@ -68,6 +68,7 @@ FAMILIES = [
 def pair_plans(prop, base_seed):
     plans = []
     E._WIDE[0] = False          # the ordered-pair sweep uses the ordinary palette
+    E._INTS[0] = False
     for fi, fam in enumerate(FAMILIES):
         cfg = copy.deepcopy(fam)
         d = Draw(subseed(base_seed, prop, 'pairs', fi))
